@@ -144,6 +144,7 @@ structure TiProg where
   update : Fn
   resegment : Fn
   isAlnum : Fn
+  widthToCursor : Fn
 
 abbrev tiKeys : List String := ["m.content", "m.cursor", "m.offset", "m.paste"]
 
@@ -197,6 +198,13 @@ def tiIsAlnumI (P : TiProg) (isLetter isNumber : A → Bool) (c : List A) : Opti
   let cx : Ctx A := { cl := fun _ => [], isAlnum := fun _ => false, call := fun _ _ _ => none, isLetter := isLetter, isNumber := isNumber }
   match runFn cx P.isAlnum [("p0.Grapheme", .str c)] [.opaque] with
   | some (_, .bool b) => some b
+  | _ => none
+
+/-- `widthToCursor(chars, cursor, offset)` through the translated body (`charW` = the `Width` of a character). -/
+def tiWidthToCursorI (P : TiProg) (charW : List A → Int) (chars : List (List A)) (cursor offset : Int) : Option Int :=
+  let cx : Ctx A := { cl := fun _ => [], isAlnum := fun _ => false, call := fun _ _ _ => none, charW := charW }
+  match runFn cx P.widthToCursor [] [.chars chars, .num cursor, .num offset] with
+  | some (_, .num w) => some w
   | _ => none
 
 end VaxisModel.Model.EdRun
